@@ -275,6 +275,38 @@ def normalize (g : Graph) (c : Nat) : Graph :=
   if c = 0 then fromDense g.V (fun i j => invOr1 (rowSum g i) * g.adj i j)
   else fromDense g.V (fun i j => g.adj i j * invOr1 (colSum g j))
 
+/-! ### Operation histories on one graph object
+
+The in-place operations replace `edges`/`weights` of the object; a history is the fold of
+their models, and every query (`dijkstra`, `voronoi_labelling`, `cc`, `kruskal`, adjacency
+export) is a function of the *current* graph only — nothing is remembered between steps. -/
+
+inductive Op
+  | normalize (c : Nat)
+  | symmeterize
+  | antiSymmeterize
+  | removeTrivial
+  | cutRedundancies
+  | copy
+  | subgraph (valid : List Bool)
+  | setWeights (w : List Rat)
+  | removeEdges (valid : List Bool)
+deriving Repr
+
+def applyOp (g : Graph) : Op → Graph
+  | .normalize c => if c ≤ 1 then normalize g c else g
+  | .symmeterize => symmeterize g
+  | .antiSymmeterize => antiSymmeterize g
+  | .removeTrivial => removeTrivial g
+  | .cutRedundancies => cutRedundancies g
+  | .copy => g
+  | .subgraph valid => (subgraph g valid).getD g
+  | .setWeights w => ⟨g.V, (g.edges.zip w).map (fun p => (p.1.1, p.1.2.1, p.2))⟩
+  | .removeEdges valid => ⟨g.V, ((g.edges.zip valid).filter (·.2)).map (·.1)⟩
+
+/-- the graph an object holds after a sequence of operations -/
+def runHistory (g : Graph) (ops : List Op) : Graph := ops.foldl applyOp g
+
 /-! ### Builders -/
 
 def getM (m : List (List Rat)) (i j : Nat) : Rat := (m.getD i []).getD j 0
